@@ -909,9 +909,11 @@ def build_args(c, env):
         sh = ["--sharding", sharg] if (env.get("shflag", {}).get(c["d"])
                                          and _info_declares_sharding(d)) else []
         return MODULES[op], lay + sh + igs + [env["vol"], d]
+    # --outside-value: an option of the program, given to every command that downscales
+    ov = ["--outside-value", str(env["outside_value"])] if env.get("outside_value") is not None else []
     if op == "Compute":
         m = ["--downscaling-method", c["m"]] if (explicit or c["m"] != "auto") else []
-        return MODULES[op], lay + m + [d]
+        return MODULES[op], lay + m + ov + [d]
     if op == "Convert":
         src = env.get("urls", {}).get(c["src"]) or env["dirs"][c["src"]]
         return MODULES[op], lay + (["--copy-info"] if c["copy"] == "copy" else []) + [src, d]
@@ -926,7 +928,7 @@ def build_args(c, env):
         return MODULES[op], nogz + [env["mesh_in"][c["m"]], d]
     if op == "AllInOne":
         m = ["--downscaling-method", c["m"]] if (explicit or c["m"] != "auto") else []
-        return MODULES[op], lay + _type_enc_flags(c, explicit) + m + igs + [env["vol"], d]
+        return MODULES[op], lay + _type_enc_flags(c, explicit) + m + ov + igs + [env["vol"], d]
     raise tlc.MachineryError("unknown op %r" % op)
 
 
@@ -1222,6 +1224,7 @@ class Session:
             "vol": volpath, "dirs": dirs, "lay": prog["lay"], "explicit": prog.get("explicit", False),
             "urls": {}, "shflag": {}, "tgt": prog.get("tgt"), "shard_enc": prog.get("shard_enc", "gzip"),
             "ignore_scaling": bool(prog.get("ignore_scaling")), "input_range": rngopt,
+            "outside_value": prog.get("outside_value"),
             "stacks": {}, "hand_info": hand_fullres_info(prog["vol"], v4 if vol.ndim == 4 else vol),
             "shard_triple": prog.get("shard_triple"), "shard_per_scale": prog.get("shard_per_scale"),
             "shard_index_enc": prog.get("shard_index_enc", prog.get("shard_enc", "gzip"))}
